@@ -552,6 +552,10 @@ def oracle(spec, m, objs=None, mode="total", unknown_vars=()):
             loc = locals_of[id(c)]
             if k == "forall":
                 u = c[1]
+                if kle and u not in A and u not in derived and not rng_of(u, A):
+                    # the counterfactual readings: the variable has no values; a condition that is decided without
+                    # looking at it (and_ / or_ short-circuit) decides the quantifier
+                    return ec(c[2], {**A, None: A.get(None, frozenset()) | {u}}) is not False
                 for val in rng_of(u, A):
                     A2 = dict(A)
                     A2[u] = val
@@ -561,6 +565,10 @@ def oracle(spec, m, objs=None, mode="total", unknown_vars=()):
             for A2 in assignments(loc, A):
                 if ec(c[2], A2) is True:
                     return True
+            if kle and any(n not in A and not rng_of(n, A) for n in loc if n not in derived):
+                # the counterfactual readings, inside a quantifier: its variable has no values, the atoms about it are
+                # unknown / produce nothing, an or_ / and_ in the condition lets its other side decide
+                return ec(c[2], {**A, None: A.get(None, frozenset()) | {n for n in loc if n not in A}}) is True
             return False
         raise ValueError(c)
 
